@@ -48,7 +48,7 @@ def execute(prop, desc):
         hists.append(hist0)
         K = min(rec0.rt.call_starts, K_CAP[desc.get("tier", "quick")])
         ks = list(range(1, K + 1))
-        viol.extend(O.o_term(rec0, desc["world"], hist0))
+        viol.extend(O.o_term(rec0, hist0.world, hist0))
     else:
         ks = [only]
     found_k = None
@@ -56,12 +56,12 @@ def execute(prop, desc):
         for k in ks:
             hist, rec = _run(desc, k)
             hists.append(hist)
-            v = o_interrupt(rec, desc["world"], hist)
+            v = o_interrupt(rec, hist.world, hist)
             if not v and desc.get("registry") and rec.sim.hung is None:
                 # repair clause: the next run from the surviving stores is correct
                 follow = dict(op="run", cfg=dict(desc["ops"][0]["cfg"], progress="rec"))
                 rec2 = machine.apply_op(hist, follow, 1)
-                v = R.o_fromscratch(rec2, desc["world"], hist) + O.o_term(rec2, desc["world"], hist)
+                v = R.o_fromscratch(rec2, hist.world, hist) + O.o_term(rec2, hist.world, hist)
                 if rec2.exc is not None and not (desc["ops"][0].get("faults") or {}).get("calls"):
                     v.append(O.V("followup-failed", f"the run after the interrupted run failed: {rec2.exc!r}"))
             if v:
